@@ -27,6 +27,10 @@ func verifC18(mk func() verifC18Msg) {
 		verifReach("first rejected")
 		return
 	}
+	// an accepted buffer is at most delta percent longer than the canonical encoding of what it decodes to
+	if sz, ok := o1.(marshal.Sizer); ok {
+		verifAssert(n1*100 <= sz.Size()*(100+verifParam("delta")), "an accepted buffer is at most delta percent longer than the re-encoded content")
+	}
 	if m.Unmarshal(o2, b2) != nil {
 		verifReach("second rejected")
 		return
